@@ -316,3 +316,140 @@ def callers_of(F, qname_regex):
             if ev.get("k") in ("call", "construct") and ev.get("callee") and rx.search(ev["callee"]):
                 out.append((fn, pos, ev))
     return out
+
+
+# ---------------------------------------------------------------------------------------------
+# natural loops
+# ---------------------------------------------------------------------------------------------
+def natural_loops(fn):
+    """[(header, body_blocks:set, back_edge_tails:set)] from back edges t->h where h dominates t."""
+    loops = {}
+    for b in fn.live_blocks():
+        for s in fn.succs(b):
+            if fn.block_dominates(s, b):
+                loops.setdefault(s, set()).add(b)
+    out = []
+    preds = fn.preds()
+    for h, tails in loops.items():
+        body = {h}
+        stack = [t for t in tails]
+        while stack:
+            x = stack.pop()
+            if x in body:
+                continue
+            body.add(x)
+            for p in preds.get(x, []):
+                if p not in body:
+                    stack.append(p)
+        out.append((h, body, tails))
+    return out
+
+
+def loop_exit_edges(fn, body):
+    """[(from_block, succ_index, to_block)] edges leaving the loop body."""
+    out = []
+    for b in body:
+        for i, s in fn.succ_edges(b):
+            if s not in body:
+                out.append((b, i, s))
+    return out
+
+
+# ---------------------------------------------------------------------------------------------
+# small interval reasoning: lower bounds of integer expressions (K9)
+# ---------------------------------------------------------------------------------------------
+NONNEG_CALLS = ("numPoolThreads", "numThreads", "size", "capacity", "count")
+
+
+def lower_bound(F, fn, e, env=None, depth=6):
+    """A sound lower bound of integer expression e, or None (unknown). env: {vid: lower bound}.
+    Knows constants, casts, std::min/std::max (also the initializer_list form), +, unsigned types,
+    accessor facts (thread counts and sizes are >= 0), bool in [0,1], ?: ."""
+    if depth <= 0 or not isinstance(e, dict):
+        return None
+    v = const_val(e)
+    if v is not None:
+        return v
+    k = e.get("k")
+    if k == "cast":
+        inner = lower_bound(F, fn, e.get("e"), env, depth - 1)
+        to = e.get("to", "")
+        if inner is None and ("size_t" in to or "unsigned" in to or to.startswith("uint")):
+            return 0
+        return inner
+    if k == "var":
+        if env and e.get("vid") in env:
+            return env[e["vid"]]
+        t = e.get("type", "")
+        if t in ("bool", "const bool"):
+            return 0
+        if "size_t" in t and "ssize_t" not in t or "unsigned" in t or t.startswith("uint"):
+            return 0
+        return None
+    if k == "member":
+        t = e.get("type", "")
+        if t == "bool":
+            return 0
+        if ("size_t" in t and "ssize_t" not in t) or "unsigned" in t or t.startswith("uint"):
+            return 0
+        return None
+    if k == "call":
+        name = e.get("name")
+        callee = e.get("callee") or ""
+        if callee in ("std::max", "std::min"):
+            args = e.get("args", [])
+            if len(args) == 1 and isinstance(args[0], dict) and args[0].get("k") in ("initlist", "construct"):
+                args = args[0].get("args", [])
+            lbs = [lower_bound(F, fn, a, env, depth - 1) for a in args[:2]] if callee != "std::min" or len(args) <= 2 else [lower_bound(F, fn, a, env, depth - 1) for a in args]
+            if callee == "std::max":
+                known = [x for x in lbs if x is not None]
+                return max(known) if known else None
+            if any(x is None for x in lbs):
+                return None
+            return min(lbs)
+        if name in NONNEG_CALLS:
+            return 0
+        # accessor whose body returns max(1, ...) etc: evaluate returns one level
+        cfn = F.callee_fn(fn, e)
+        if cfn is not None and depth > 2:
+            rets = [ev for _, ev in cfn.events() if ev.get("k") == "return"]
+            lbs = [lower_bound(F, cfn, r.get("e"), None, depth - 2) for r in rets]
+            if rets and all(x is not None for x in lbs):
+                return min(lbs)
+        t = e.get("type", "")
+        if ("size_t" in t and "ssize_t" not in t) or "unsigned" in t:
+            return 0
+        return None
+    if k == "bin":
+        op = e.get("op")
+        l = lower_bound(F, fn, e.get("l"), env, depth - 1)
+        r = lower_bound(F, fn, e.get("r"), env, depth - 1)
+        if op == "+" and l is not None and r is not None:
+            return l + r
+        if op == "*" and l is not None and r is not None and l >= 0 and r >= 0:
+            return l * r
+        if op == "/" and l is not None and l >= 0:
+            return 0
+        return None
+    if k == "cond":
+        a = lower_bound(F, fn, e.get("t"), env, depth - 1)
+        b = lower_bound(F, fn, e.get("f"), env, depth - 1)
+        if a is None or b is None:
+            return None
+        return min(a, b)
+    if k == "construct" and len(e.get("args", [])) == 1:
+        return lower_bound(F, fn, e["args"][0], env, depth - 1)
+    return None
+
+
+def local_defs(fn, vid):
+    """All definitions of local vid: decl inits and assignments [(pos, rhs_expr_or_None, op)]."""
+    out = []
+    for pos, ev in fn.events():
+        if ev.get("k") == "decl" and ev.get("vid") == vid:
+            out.append((pos, ev.get("init"), "decl"))
+        elif ev.get("k") == "bin" and ev.get("op", "") in ("=", "+=", "-=", "*=", "/=", "&=", "|=") and isinstance(strip_casts(ev.get("l")), dict) and strip_casts(ev.get("l")).get("vid") == vid:
+            out.append((pos, ev.get("r"), ev["op"]))
+        elif ev.get("k") == "un" and ev.get("op") in ("++", "--") and isinstance(strip_casts(ev.get("e")), dict) and strip_casts(ev.get("e")).get("vid") == vid:
+            out.append((pos, None, ev["op"]))
+    return out
